@@ -240,113 +240,148 @@ def _strip(e: ast.AST) -> ast.AST:
 
 
 def _r3_r4(ck: Checker, prog: Program):
+    """TimeSeries.split as a tiling: window j = samples [j*k, j*k + k + 1) for j < floor(n/k), k = whole intervals per window."""
+    from ..pathtable import PathTable, literals, same_rel, negate
+    from ..dataflow import loop_carried
     f = prog.func("timeseries.TimeSeries.split")
     fq = f.qualname
-    body = f.node.body
-    assigns = [st for st in body if isinstance(st, ast.Assign)]
-    ints: Set[str] = set()
-    for st in assigns:
-        if isinstance(st.targets[0], ast.Name) and _int_typed(st.value, ints):
-            ints.add(st.targets[0].id)
-    # ---------------------------------------------------------------- R4
-    spw = [st for st in assigns if unparse(st.targets[0]) == "samples_per_window"]
-    if len(spw) != 1:
-        raise AnalysisError(f"{fq}: `samples_per_window = ...` not found")
-    T = Translator()
-    wl, dt = T.sym("window_length_in_seconds"), T.sym("self.dt_in_seconds")
-    # find truncations of non-integer quotients anywhere in the function
-    n_trunc = 0
-    for node in own_nodes(f.node):
-        if isinstance(node, ast.Call) and call_name(node) in ("int", "floor", "trunc") and len(node.args) == 1:
-            a = _strip(node.args[0])
-            if isinstance(a, ast.BinOp) and isinstance(a.op, ast.Div) and not (_int_typed(a.left, ints) and _int_typed(a.right, ints)):
-                n_trunc += 1
-                ck.violation("C10.R4", fq, norm_key(node),
-                             f"`{unparse(node)}` truncates the raw float quotient: a window length that is an exact multiple of the time step "
-                             f"can come out one interval short (e.g. 3 s at 75 Hz gives 224.99999999999997)", loc=f.loc(node))
-        if isinstance(node, ast.BinOp) and isinstance(node.op, ast.FloorDiv) and not (_int_typed(node.left, ints) and _int_typed(node.right, ints)):
-            n_trunc += 1
-            ck.violation("C10.R4", fq, norm_key(node), f"`{unparse(node)}` floor-divides non-integers (bare truncation of the float quotient)", loc=f.loc(node))
-    # the quotient itself must be window_length / dt exactly (rounding applied to the quotient, not to an operand)
-    quot = [n for n in ast.walk(spw[0].value) if isinstance(n, ast.BinOp) and isinstance(n.op, ast.Div)]
-    good_q = len(quot) == 1 and equal(T.tr(quot[0]), wl / dt) and isinstance(_strip(quot[0].left), (ast.Name, ast.Attribute)) \
-        and isinstance(_strip(quot[0].right), (ast.Name, ast.Attribute))
-    rounding = False
-    if quot:
-        p = parent_of(quot[0])
-        while p is not None and p is not spw[0]:
-            if isinstance(p, ast.Call) and call_name(p) in ("round", "rint", "around"):
-                rounding = True
-            if isinstance(p, ast.BinOp) and isinstance(p.op, ast.Add) and any(isinstance(x, ast.Constant) and isinstance(x.value, float) and 0 < x.value < 0.5
-                                                                                 for x in (p.left, p.right)):
-                rounding = True
-            p = parent_of(p)
-    if good_q and rounding and n_trunc == 0:
-        ck.ok("C10.R4", fq, norm_key(spw[0]), detail="exact quotient window_length/dt, rounded/tolerance-adjusted before truncation")
-    elif n_trunc == 0:
-        ck.violation("C10.R4", fq, norm_key(spw[0]),
-                     f"k is not obtained from the exact quotient window_length_in_seconds/self.dt_in_seconds with a rounding step applied to the quotient "
-                     f"(quotient ok: {good_q}, rounding of the quotient: {rounding})", loc=f.loc(spw[0]))
-    # ---------------------------------------------------------------- R3
-    TT = Translator()
-    forward_substitute(assigns, TT)
-    S = TT.sym("samples_per_window")
-    kk = sp.Symbol("k", positive=True, integer=True)
-    # samples_per_window = k + 1  (k = the rounded quotient)
-    v = Translator().tr(spw[0].value)
-    kexpr = sp.simplify(v - 1)
-    k_is_whole_count = (kexpr.is_Function and kexpr.func.__name__ in ("int", "round")) or isinstance(kexpr, sp.floor)
-    if k_is_whole_count:
-        ck.ok("C10.R3", fq, "samples_per_window = k + 1", detail=f"k = {kexpr}")
+    R = lambda n: sp.Symbol(n, real=True)   # noqa: E731
+    WL, DT, NS, AMP = R("window_length_in_seconds"), R("self.dt_in_seconds"), R("self.n_samples"), R("self.amplitude")
+    gi, sl, NONE = sp.Function("getitem"), sp.Function("slice"), sp.Symbol("None")
+    pt = PathTable(prog, f.module)
+    leaves = pt.leaves(f.node.body)
+    succ = [l for l in leaves if l.exit == "return"]
+    if len(succ) != 1:
+        raise AnalysisError(f"{fq}: expected one returning path, found {len(succ)}")
+    l = succ[0]
+    J = sp.Symbol("j", integer=True, nonnegative=True)
+    W = start_j = a = b = None
+    site = f.node
+    loops = [e[3] for e in l.events if e[0] == "loop"]
+    if len(loops) == 1:
+        lp = loops[0]
+        site = lp
+        if not (isinstance(lp, ast.For) and isinstance(lp.iter, ast.Call) and call_name(lp.iter) == "range" and len(lp.iter.args) == 1) \
+                or any(isinstance(x, (ast.Break, ast.Continue, ast.If, ast.Return)) for x in ast.walk(lp)):
+            ck.violation("C10.R3", fq, "tiling recurrence", f"the window loop `{norm_key(lp, 60)}` does not produce one window per index of range(n_windows)", loc=f.loc(lp))
+            return
+        env0 = l.snaps[id(lp)][0]
+        W = Translator(env=env0).tr(lp.iter.args[0])
+        carried = sorted({nm for (nm, _u, _d) in loop_carried(f, lp)})
+        state = [nm for nm in carried if nm in env0]
+        if len(state) != 1:
+            raise AnalysisError(f"{fq}: expected one running index carried between windows, found {carried}")
+        sv = state[0]
+        Ssym = sp.Symbol("<start>", integer=True)
+        env = dict(env0)
+        env[sv] = Ssym
+        sub = PathTable(prog, f.module, env=env).leaves(lp.body)
+        if len(sub) != 1:
+            raise AnalysisError(f"{fq}: branching window loop body")
+        sl_ = sub[0]
+        step = sp.simplify(sl_.env[sv] - Ssym)
+        s0 = env0[sv]
+        if step.has(Ssym):
+            ck.violation("C10.R3", fq, "tiling recurrence", f"the next window starts at {sl_.env[sv]}: not a fixed stride", loc=f.loc(lp))
+            return
+        start_j = sp.expand(s0 + J * step)
+        apps = [e for e in sl_.events if e[0] == "call" and e[1].endswith(".append")]
+        if len(apps) != 1:
+            raise AnalysisError(f"{fq}: expected one append per window, found {len(apps)}")
+        win = apps[0][2].args[-1]
+        lst = apps[0][2].args[0]
+        if l.value != lst:
+            ck.violation("C10.R3", fq, "window samples", f"the list returned ({l.value}) is not the list the windows are appended to ({lst})", loc=f.loc())
+        a_, b_ = _window_slice(win, AMP, DT)
+        if a_ is None:
+            ck.violation("C10.R3", fq, "window samples", f"a window is {win}: not TimeSeries(self.amplitude[start:end], self.dt_in_seconds)", loc=f.loc(lp))
+            return
+        a, b = a_.subs(Ssym, start_j), b_.subs(Ssym, start_j)
     else:
-        ck.violation("C10.R3", fq, "samples per window", f"samples_per_window is {v}, not (whole intervals) + 1", loc=f.loc(spw[0]))
-    nw = [st for st in assigns if unparse(st.targets[0]) == "n_windows"]
-    T2 = Translator()
-    ok_nw = False
-    if len(nw) == 1:
-        g = T2.tr(nw[0].value)
-        n, Sx = T2.sym("self.n_samples"), T2.sym("samples_per_window")
-        ok_nw = equal(g, sp.Function("int")(n / (Sx - 1))) or equal(g, sp.floor(n / (Sx - 1)))
-    if ok_nw:
-        ck.ok("C10.R3", fq, norm_key(nw[0]), detail="n_windows = floor(n_samples / k)")
+        v = l.value
+        comp, gen = sp.Function("comp"), sp.Function("gen")
+        if getattr(v, "func", None) != comp or len(v.args) != 2 or v.args[1].func != gen or len(v.args[1].args) != 2:
+            raise AnalysisError(f"{fq}: construction of the window list not recognised ({v})")
+        elt, g = v.args
+        var, it = g.args
+        a_, b_ = _window_slice(elt, AMP, DT)
+        if a_ is None:
+            ck.violation("C10.R3", fq, "window samples", f"a window is {elt}: not TimeSeries(self.amplitude[start:end], self.dt_in_seconds)", loc=f.loc())
+            return
+        if getattr(it, "func", None) == comp and len(it.args) == 2 and it.args[1].func == gen and len(it.args[1].args) == 2 \
+                and getattr(it.args[1].args[1], "func", None) == sp.Function("range") and len(it.args[1].args[1].args) == 1:
+            inner_elt, ig = it.args
+            ivar = ig.args[0]
+            W = ig.args[1].args[0]
+            start_j = sp.expand(inner_elt.subs(ivar, J))
+        elif getattr(it, "func", None) == sp.Function("range") and len(it.args) == 1:
+            W = it.args[0]
+            start_j = J
+        else:
+            raise AnalysisError(f"{fq}: construction of the window list not recognised (iterates {it})")
+        a, b = a_.subs(var, start_j), b_.subs(var, start_j)
+    # ---- k: whole intervals per window = length - 1
+    length = sp.simplify(b - a)
+    k = sp.simplify(length - 1)
+    q = WL / DT
+    fn = lambda e: getattr(getattr(e, "func", None), "__name__", "")   # noqa: E731
+
+    def rounded(e) -> Optional[str]:
+        """how the quotient is turned into a whole number: 'rounded' | 'truncated' | None"""
+        if fn(e) == "int" and len(e.args) == 1:
+            inner = e.args[0]
+            if fn(inner) in ("round", "rint", "around") and equal(inner.args[0], q):
+                return "rounded"
+            if equal(inner, q):
+                return "truncated"
+            d = sp.simplify(inner - q)
+            if d.is_number and 0 < d < sp.Rational(1, 2):
+                return "rounded"
+            return None
+        if fn(e) in ("round", "rint") and len(e.args) == 1 and equal(e.args[0], q):
+            return "rounded"
+        if isinstance(e, sp.floor):
+            inner = e.args[0]
+            if equal(inner, q):
+                return "truncated"
+            d = sp.simplify(inner - q)
+            if d.is_number and 0 < d < sp.Rational(1, 2):
+                return "rounded"
+        return None
+    how = rounded(k)
+    if how == "rounded":
+        ck.ok("C10.R4", fq, f"k = {k}", detail="exact quotient window_length/dt, rounded/tolerance-adjusted before truncation")
+        ck.ok("C10.R3", fq, "samples per window = k + 1", detail=f"k = {k}")
+    elif how == "truncated":
+        ck.violation("C10.R4", fq, f"k = {k}",
+                     f"`{k}` truncates the raw float quotient: a window length that is an exact multiple of the time step "
+                     f"can come out one interval short (e.g. 3 s at 75 Hz gives 224.99999999999997)", loc=f.loc())
     else:
-        ck.violation("C10.R3", fq, "number of windows", "n_windows is not floor(n_samples / (samples_per_window - 1))", loc=f.loc())
-    ref = [st for st in body if isinstance(st, ast.If) and any(isinstance(b, ast.Raise) for b in st.body)]
-    if len(ref) == 1 and unparse(ref[0].test) in ("n_windows < 1", "n_windows == 0", "n_windows <= 0"):
-        ck.ok("C10.R3", fq, norm_key(ref[0]), detail="a window longer than the record is refused")
+        ck.violation("C10.R3", fq, "samples per window", f"a window holds {length} samples, not (whole intervals of window_length/dt) + 1", loc=f.loc(site))
+        return
+    if equal(a, sp.expand(J * k)):
+        ck.ok("C10.R3", fq, "window j starts at sample j*k", detail="consecutive windows share exactly one sample")
+    else:
+        ck.violation("C10.R3", fq, "tiling recurrence", f"window j starts at sample {a}; expected j*k with k = {k} (start 0, stride k)", loc=f.loc(site))
+    n_ok = W is not None and (equal(W, sp.Function("int")(NS / k)) or equal(W, sp.floor(NS / k)))
+    if n_ok:
+        ck.ok("C10.R3", fq, f"n_windows = {W}", detail="n_windows = floor(n_samples / k)")
+    else:
+        ck.violation("C10.R3", fq, "number of windows", f"n_windows is {W}, not floor(n_samples / k)", loc=f.loc())
+    refused = [x for r in leaves if r.exit == "raise" for x in literals(r)]
+    alts = [sp.Gt(1, W, evaluate=False), sp.Eq(W, 0, evaluate=False), sp.Ge(0, W, evaluate=False)] if W is not None else []
+    if any(same_rel(x, y) for x in refused for y in alts) and any(same_rel(x, negate(y)) for x in literals(l) for y in alts):
+        ck.ok("C10.R3", fq, "a window longer than the record is refused")
     else:
         ck.violation("C10.R3", fq, "refusal", "a window longer than the record is not refused", loc=f.loc())
-    loops = [st for st in body if isinstance(st, ast.For)]
-    if len(loops) != 1:
-        raise AnalysisError(f"{fq}: window loop not found")
-    lp = loops[0]
-    it_ok = unparse(lp.iter) == "range(n_windows)" and not any(isinstance(x, (ast.Break, ast.Continue, ast.If)) for x in ast.walk(lp))
-    start0 = [st for st in assigns if unparse(st.targets[0]) == "start_idx" and st.lineno < lp.lineno]
-    TL = Translator()
-    s0, Ssym = TL.sym("start_idx"), TL.sym("samples_per_window")
-    forward_substitute([st for st in lp.body if isinstance(st, ast.Assign) and isinstance(st.targets[0], ast.Name)], TL)
-    end = TL.env.get("end_idx")
-    nxt = TL.env.get("start_idx")
-    rec_ok = start0 and unparse(start0[-1].value) == "0" and end is not None and equal(end, s0 + Ssym) and nxt is not None and equal(nxt, s0 + Ssym - 1)
-    if it_ok and rec_ok:
-        ck.ok("C10.R3", fq, "start_0 = 0; end = start + S; start' = end - 1", detail="start_j = j*k; consecutive windows share exactly one sample")
-    else:
-        ck.violation("C10.R3", fq, "tiling recurrence",
-                     f"window bounds do not follow start_0=0, end=start+S, start'=end-1 (loop over range(n_windows): {it_ok}; end={end}; next start={nxt})",
-                     loc=f.loc(lp))
-    cons = calls_in(lp, "TimeSeries") + calls_in(lp, "cls")
-    good = False
-    if len(cons) == 1:
-        a = cons[0].args
-        good = len(a) >= 2 and unparse(a[0]) == "self.amplitude[start_idx:end_idx]" and unparse(a[1]) == "self.dt_in_seconds"
-        app = calls_in(lp, "append")
-        cst = _stmt_of(cons[0])
-        endst = [st for st in lp.body if isinstance(st, ast.Assign) and unparse(st.targets[0]) == "end_idx"]
-        nxst = [st for st in lp.body if isinstance(st, ast.Assign) and unparse(st.targets[0]) == "start_idx"]
-        good = good and len(app) == 1 and endst and nxst and endst[0].lineno < cst.lineno < nxst[0].lineno
-    rets = [r for r in own_nodes(f.node) if isinstance(r, ast.Return)]
-    if good and len(rets) == 1 and unparse(rets[0].value) == "windows":
-        ck.ok("C10.R3", fq, norm_key(cons[0]), detail="window j = samples [start_j, start_j + S) of the record, unaltered, same time step")
-    else:
-        ck.violation("C10.R3", fq, "window samples", "a window is not the slice [start, end) of self.amplitude with the record's time step, appended in order",
-                     loc=f.loc(lp))
+
+
+def _window_slice(win, AMP, DT):
+    gi, sl, NONE = sp.Function("getitem"), sp.Function("slice"), sp.Symbol("None")
+    fn = getattr(getattr(win, "func", None), "__name__", "")
+    if fn not in ("TimeSeries", "cls") or len(win.args) < 2:
+        return None, None
+    data, dt = win.args[0], win.args[1]
+    if dt != DT or getattr(data, "func", None) != gi or data.args[0] != AMP or getattr(data.args[1], "func", None) != sl or data.args[1].args[2] != NONE:
+        return None, None
+    return data.args[1].args[0], data.args[1].args[1]
